@@ -67,3 +67,84 @@ def num_cases(rng, nrandom):
 def trivial_num(line):
     ws = line.split(" ")
     return all(w in ("i0", "i1", "i-1") for w in ws[2:])
+
+
+# ------------------------------------------------------------------------------------------
+# the n-ary builtins (folds and comparison chains) through the evaluator
+# ------------------------------------------------------------------------------------------
+FOLD_OPS = ["+", "-", "*", "/", "max", "min"]
+CHAIN_OPS = ["=", "<", "<=", ">", ">="]
+VARS = ["na", "nb", "nc", "nd", "ne"]
+
+
+def hexs(s):
+    return s.encode("utf-8").hex()
+
+
+def nested(op, names):
+    e = names[0]
+    for n in names[1:]:
+        e = "(%s %s %s)" % (op, e, n)
+    return e
+
+
+def nary_cases(rng, n, per_case=100):
+    """cases of `per_case` tests; a test binds 3-5 variables to numbers (grid or random, unreduced ratios
+    included) and evaluates an n-ary call, its left-nested binary spelling (folds) or its adjacent pairs (chains).
+    returns (cases, tests) where tests[k] = (case index, kind, op, operands, line positions)"""
+    g = grid()
+    small = [x for x in g if x[0] in "iq" and abs(int(x[1:].split("/")[0])) < 40000][:40]
+    cases = []
+    tests = []
+    lines = None
+    for k in range(n):
+        if k % per_case == 0:
+            lines = ["NEW 0 std"]
+            cases.append({"lines": lines})
+        arity = rng.choice([3, 3, 3, 4, 5])
+        pool = rng.choice([g, small, small])
+        ops = [rng.choice(pool) if rng.random() < 0.7 else rand_num(rng) for _ in range(arity)]
+        if rng.random() < 0.3:
+            # nearly sorted / equal neighbours: chains that fail in exactly one place
+            ops = sorted(ops[:arity], key=lambda x: rng.random())
+            j = rng.randrange(arity - 1)
+            ops[j + 1] = ops[j] if rng.random() < 0.5 else ops[j + 1]
+        names = VARS[:arity]
+        for nm, v in zip(names, ops):
+            lines.append("DEFNUM 0 %s %s" % (hexs(nm), v))
+        if rng.random() < 0.5:
+            op = rng.choice(FOLD_OPS)
+            pos = [len(lines), len(lines) + 1]
+            lines.append("EVAL 0 " + hexs("(%s %s)" % (op, " ".join(names))))
+            lines.append("EVAL 0 " + hexs(nested(op, names)))
+            tests.append((len(cases) - 1, "fold", op, ops, pos))
+        else:
+            op = rng.choice(CHAIN_OPS)
+            pos = [len(lines)]
+            lines.append("EVAL 0 " + hexs("(%s %s)" % (op, " ".join(names))))
+            for a, b in zip(names, names[1:]):
+                pos.append(len(lines))
+                lines.append("EVAL 0 " + hexs("(%s %s %s)" % (op, a, b)))
+            tests.append((len(cases) - 1, "chain", op, ops, pos))
+    return cases, tests
+
+
+def nary_oracle(tests, results, which=1):
+    """independent reading of the n-ary builtins on the implementation's own answers: a fold equals its
+    left-nested binary spelling, a chain is the conjunction of its adjacent pairs. returns list of
+    (test, message)"""
+    bad = []
+    for t in tests:
+        ci, kind, op, ops, pos = t
+        out = results[ci][which]
+        if kind == "fold":
+            if out[pos[0]] != out[pos[1]]:
+                bad.append((t, "(%s %s) gives %s but the left-nested binary spelling gives %s" % (op, " ".join(ops), out[pos[0]], out[pos[1]])))
+        else:
+            pairs = [out[p] for p in pos[1:]]
+            if all(p.startswith("(ok #") for p in pairs) and out[pos[0]].startswith("(ok #"):
+                want = all(p.startswith("(ok #t") for p in pairs)
+                got = out[pos[0]].startswith("(ok #t")
+                if want != got:
+                    bad.append((t, "(%s %s) gives %s but its adjacent pairs give %s" % (op, " ".join(ops), out[pos[0]], pairs)))
+    return bad
